@@ -132,7 +132,7 @@ def run_faults(ctx, spec):
                 raise RuntimeError("dataset child failed rc=%s: %s" % (rc, err))
             res = out["results"]
             for (nr, seq, fin), si in zip(chunk, idxs):
-                judge_fault(ctx, nr, seq, fin, res[si], res[si + 1], res[si + 3])
+                judge_fault(ctx, nr, seq, fin, res[si], res[si + 1], res[si + 3], home)
         if cases:
             nr, seq, fin = cases[len(cases) // 2]
             ctx.sample({"n_retries": nr, "fault_sequence": seq, "final_payload": fin})
@@ -140,7 +140,7 @@ def run_faults(ctx, spec):
         shutil.rmtree(scratch, ignore_errors=True)
 
 
-def judge_fault(ctx, nr, seq, fin, r, lst, follow):
+def judge_fault(ctx, nr, seq, fin, r, lst, follow, home=None):
     cid = {"kind": "faults", "n_retries": nr, "sequence": seq, "final": fin, "seed": ctx.seed}
     url = URL % ("fs-%d-%s-%s" % (nr, "".join(s[0] for s in seq), fin))
     f = len(seq)
@@ -149,6 +149,11 @@ def judge_fault(ctx, nr, seq, fin, r, lst, follow):
     ctx.count("faults:n_retries=%d" % nr)
     if [e for e in r.get("audit", []) if e[0] == "REAL_NETWORK"]:
         raise RuntimeError("harness error: real network touched")
+    if home is not None:
+        bad = _ds.outside_writes(r.get("audit", []), home)
+        if bad:
+            ctx.violation("file_written_outside_data_home", cid, {"events": bad[:5]})
+            return
     nreq = len(r["requests"])
     files = [e for e in lst["listing"] if isinstance(e, list)]
     dirs = [e for e in lst["listing"] if isinstance(e, str)]
@@ -630,7 +635,7 @@ def replay(ctx, case):
             steps = [{"op": "net", "scripts": {url: seq + ["good" if gz else fin]}, "default": "good"}, st,
                      {"op": "listing"}, {"op": "net", "default": "good"}, dict(st, n_retries=0)]
             rc, out, err = _ds.run_child({"home": home, "steps": steps}, scratch)
-            judge_fault(ctx, nr, seq, fin, out["results"][1], out["results"][2], out["results"][4])
+            judge_fault(ctx, nr, seq, fin, out["results"][1], out["results"][2], out["results"][4], home)
         finally:
             shutil.rmtree(scratch, ignore_errors=True)
     elif k == "kill":
